@@ -301,6 +301,9 @@ def sp_families(run):
                   invariants=("ListRoundTrip",)),
         ApiFamily("sp_closure", ["http://h/?b=2&a=1&b=3", "x:o?a=1"], sp_ops=sp_ops(names[:3], values[:2], with_iter=False), mode="closure", invariants=("ListRoundTrip",)),
     ]
+    if not q:   # three operations deep over a seed-chosen sub-alphabet (duplicate names arise from the starts and from append)
+        fams.append(ApiFamily("sp_d3_sub", SP_STARTS, sp_ops=sp_ops(names[:3], values[:2]), read_ops=[(o, n) for o in ("get", "getall", "has") for n in names[:3]], depth=4,
+                              invariants=("ListRoundTrip",), maxlist=8))
     return fams
 
 
@@ -358,7 +361,7 @@ def check_c12(run):
     DET = [("append", "x", "y"), ("delete", "a", ""), ("set", "a", "9"), ("sort", "", "")]
     fams.append(ApiFamily("xfer_d3", ["http://h/?b=2&a=1", "x:o?a=1&&c", "http://h/p", "http://h/p?"], setter_ops=[("search", ""), ("search", "z=1&y"), ("hash", "f")],
                           sp_ops=[("append", "k", "v"), ("delete", "a", ""), ("sort", "", "")], xfer_ops=XFER, det_ops=DET, refs=["?r=1", "x"],
-                          depth=3 if q else 4, nh=2, clone=True, properties=("WriteThrough", "Independence")))
+                          depth=3 if q else 5, nh=2, clone=True, properties=("WriteThrough", "Independence")))
     run_api_families(run, fams, keys="href,query,search,pathname,hash")
     run_traces(run, salt=12, parse_only=10)
     return run.finish("model_checking", "all interleavings (bounded trees and closure) of SearchParams mutations, SetSearch and the other setters from "
@@ -926,35 +929,43 @@ def check_c17(run):
     run.build_harness()
     run.selftest()
     q = run.tier == "quick"
-    # (1) option-composed profiles, WhatWg, WhatWgSortQuery: ALL strings (the C01 families without base)
-    keep = ("struct", "path", "class", "creds", "host") if q else ("struct", "path", "class", "creds", "host", "file", "dotdeep", "ws", "brackets")
-    fams = [f for f in c01_families(run) if f.name in keep]
+    # (1) ALL strings (the C01 families without base): output predicted for every profile, fixed point demanded of WhatWg, WhatWgSortQuery and the
+    #     option-composed profiles.  Sizes are fitted to ~2000 validated events/s: quick ~0.2 M events, thorough ~1.5 M.
+    from types import SimpleNamespace
+    base_fams = {f.name: f for f in c01_families(SimpleNamespace(tier="quick", seed=run.seed))}
     L = filler_letter(run.seed)
-    fams.append(Family("idemquery", ("&=%25'" + L) if q else ("&=+%25a1'" + L), 4 if q else 5, prefixes=["http://h/?", "x:o?"], invariants=["PtrOk"]))   # ' : spelled %27 by the parser of a special URL, literally by the list serializer
+    RICH = ["WhatWgSortQuery", COMPOSED[6], COMPOSED[7], COMPOSED[8], "GoogleSafeBrowsing", "Semantic"]
+    plan = []     # (family, profiles)
+    sizes = {"struct": 3, "path": 3, "host": 2} if q else {"struct": 4, "path": 4, "host": 3, "creds": 7}
+    for name in ("struct", "path", "class", "creds", "host"):
+        f = base_fams[name]
+        f.maxlen = sizes.get(name, f.maxlen)
+        plan.append((f, None))
+    if not q:
+        for name in ("file", "dotdeep", "ws", "brackets"):    # further shapes, on the six richest profiles
+            plan.append((base_fams[name], RICH))
+    plan.append((Family("idemquery", ("&=%25'" + L) if q else ("&=+%25a'" + L), 4, prefixes=["http://h/?", "x:o?"], invariants=["PtrOk"]), None))   # ' : spelled %27 by the parser of a special URL, literally by the list serializer
     # two parameters, one of them with a nested escape in its name: the order of sorting and decoding matters
-    fams.append(Family("idemnest", "ab&=%" if q else "abc&=%2", 2 if q else 3, prefixes=["http://h/?%2562&", "http://h/?%2562=%2563&", "x:o?%2562="], invariants=["PtrOk"]))
-    fams.append(Family("laxhost", [0x110080, 0x1100FF, ord("."), ord("a"), ord("%"), ord("4"), ord("1"), ord("A"), ord(" "), 0xE9, ord("E"), ord("9")], 2 if q else 3,
-                       prefixes=["http://", "x://"], suffixes=["/p?q"], invariants=["PtrOk"]))
-    fams.append(Family("laxpath", [0x110080, ord("/"), ord("%"), ord("2"), ord("5"), ord("e"), 0xE9, ord("E"), ord("9"), ord("."), ord("&"), ord("=")], 2 if q else 3,
-                       prefixes=["http://h/", "http://h/?", "http://h/#"], invariants=["PtrOk"]))
-    for f in fams:
+    plan.append((Family("idemnest", "ab&=%" if q else "abc&=%2", 2 if q else 3, prefixes=["http://h/?%2562&", "http://h/?%2562=%2563&", "x:o?%2562="], invariants=["PtrOk"]), None))
+    plan.append((Family("laxhost", [0x110080, 0x1100FF, ord("."), ord("a"), ord("%"), ord("4"), ord("1"), ord("A"), ord(" "), 0xE9, ord("E"), ord("9"), 0x7F], 2 if q else 3,
+                        prefixes=["http://", "x://"], suffixes=["/p?q"], invariants=["PtrOk"]), None))
+    plan.append((Family("laxpath", [0x110080, ord("/"), ord("%"), ord("2"), ord("5"), ord("e"), 0xE9, ord("E"), ord("9"), ord("."), ord("&"), ord("=")], 2 if q else 3,
+                        prefixes=["http://h/", "http://h/?", "http://h/#"], invariants=["PtrOk"]), None))
+    for f, profs in plan:
         f.bases, f.nobase = [], True
-        if q and f.name in ("struct", "path"):
-            f.maxlen = 3
-        if q and f.name == "host":
-            f.maxlen = 2
         mod = f.write(run.scratch)
-        profs = ALL_STRING_PROFILES
-        if q:   # quick: the two predefined ones, the two richest compositions and three seed-chosen single options
-            profs = ["WhatWgSortQuery", COMPOSED[6], COMPOSED[7], COMPOSED[8], "GoogleSafeBrowsing", "Semantic"] + rng(run.seed, "c17profs").sample(["WhatWg"] + COMPOSED[:6], 1)
-        bad, n = run.tlc_events(mod, f.name, "idem", cfg=mod + ".cfg", chunks=14, events_args=["--names", ",".join(profs)])
-        run.samples.append("[%s/idem] %d events (input x profile: y = p(x), z = p(y)) for %d option-composed profiles" % (f.name, n, len(profs)))
+        if profs is None:
+            profs = ALL_STRING_PROFILES
+            if q:   # quick: the predefined ones, the richest compositions and one seed-chosen single option
+                profs = RICH + rng(run.seed, "c17profs").sample(["WhatWg"] + COMPOSED[:6], 1)
+        bad, n = run.tlc_events(mod, f.name, "idem", cfg=mod + ".cfg", chunks=14, events_args=["--names", ",".join(profs)], timeout=1800)
+        run.samples.append("[%s/idem] %d events (input x profile: y = p(x), z = p(y)) for %d profiles" % (f.name, n, len(profs)))
         absorb_events(run, bad, f.name)
         run.distinct += n
     # (2) GoogleSafeBrowsing / Semantic (and the others again): every spelling of the ordinary-web-URL grammar
     gf = canon_family(run, "grammar", "spell", 1 if q else 2, not q)
     mod = gf.write(run.scratch)
-    bad, n = run.tlc_events(mod, gf.name, "idem", cfg=mod + ".cfg", chunks=14, events_args=["--names", "GoogleSafeBrowsing,Semantic,WhatWgSortQuery,canon:repeated_decode"])
+    bad, n = run.tlc_events(mod, gf.name, "idem", cfg=mod + ".cfg", chunks=14, events_args=["--names", "GoogleSafeBrowsing,Semantic,WhatWgSortQuery,canon:repeated_decode"], timeout=1800)
     run.samples.append("[grammar/idem] %d events over the ordinary-web-URL grammar (schemes %s, hosts %s) with up to %d re-spelled characters" % (n, gf.schemes, gf.hosts, gf.k))
     absorb_events(run, bad, gf.name)
     run.distinct += n
